@@ -175,6 +175,7 @@ def c18(A, ctx, tier):
              "(np.random.randn inside an njit function): sparse global Lipschitz constants "
              "depend on how many draws happened before; informational (the power method's "
              "limit does not depend on the start vector)")
+    misc.r_lazyread(A, ctx, dict(floor=20))
     return dict(explanation="purity: effect summaries show no in-place mutation of X, y, "
                 "CSC arrays, group structure or constructor arrays anywhere reachable from "
                 "fit/path/solve; estimators never rebind constructor attributes, read "
@@ -367,6 +368,7 @@ def c14(A, ctx, tier):
     misc.r_inf_hyper(A, ctx, {})
     misc.r_abseps(A, ctx, dict(floor=300))
     ctx.assume("limit reductions (gamma -> inf, delta -> inf), SLOPE vs L1, Gram vs CD are not decided")
+    misc.r_lazyread(A, ctx, dict(floor=20))
     return dict(explanation="method-by-method equality of lifted terms under the substitution "
                 "that makes the general component coincide with the special one (weights := 1, "
                 "l1_ratio := 1, sample_weights := 1, group accessor at one feature); every "
